@@ -187,6 +187,10 @@ def hazard_rule2(rep, prop):
                 rep.check(not armed, R, ix.site(f, c), "`%s` leaves underflow alone" % " ".join(u(c).split())[:60],
                           "with %s=%r a valid expression whose value underflows (exp(-800), 1e-200*1e-200) is refused instead of evaluating to 0.0" % (armed[0].arg, armed[0].value.value) if armed else "",
                           key="%s|errstate" % q)
+            elif name == "hash" and len(c.args) == 1 and not (f.name == "__hash__"):
+                n += 1
+                rep.bad(R, ix.site(f, c), "nothing that is written or stored depends on hash()", "`%s`: the hash of a str / bytes object differs from process to process (PYTHONHASHSEED)"
+                        % " ".join(u(c).split())[:60], key="%s|hash" % q)
             elif name in TEXT_PARSERS and prop in LOAD_SIDE and f.mod in ("listener", "auxiliary", "__init__", "error") and c.args and not isinstance(c.args[0], ast.Constant):
                 n += 1
                 rep.bad(R, ix.site(f, c), "script text is read by the generated recogniser only", "`%s` parses text with conventions of its own (line ends, number forms, what counts as an error)"
@@ -206,9 +210,23 @@ def hazard_rule2(rep, prop):
         rep.ok(R, "package", "none of the listed library hazards among the %d reachable functions" % len(reach))
 
 
+def shared_load_rules(rep, prop):
+    """necessary conditions of every property that is observed through load / loads: the caller's characters reach the generated lexer as they
+    are (C10.2), and the included file is the one the path names (C07.1) - run here for the properties whose own module does not run them"""
+    done = {o.rule for o in rep.obs}
+    ix = common.index(rep)
+    if prop in LOAD_SIDE and not ({"C10.2", "C18.4"} & done):
+        from . import c10
+        common.guarded(rep, "C10.2", c10.c10_2, rep, ix)
+    if prop in ("C02", "C11", "C12") and "C07.1" not in done:
+        from . import c07
+        common.guarded(rep, "C07.1", c07.c07_1, rep, ix)
+
+
 def run(rep, prop):
     if prop not in ENTRIES:
         return
+    common.guarded(rep, "LOAD", shared_load_rules, rep, prop)
     common.guarded(rep, "MEMO.1", memo_rule, rep, prop)
     common.guarded(rep, "HAZ.1", hazard_rule, rep, prop)
     common.guarded(rep, "HAZ.2", hazard_rule2, rep, prop)
